@@ -930,7 +930,9 @@ def run(chk, args):
     touts = res[len(chunks) + len(schunks) + len(hchunks)] if tcase else None
     reported = set()
     # threaded search: N threads encode their own packets at once; every result against the independent encoder
-    if touts:
+    if touts and (not isinstance(touts[0], list) or len(touts[0]) < 3):
+        chk.oblige("threads-search-ran", False, "the threaded search did not complete: %r" % (touts[0],))
+    elif touts:
         t = touts[0]
         chk.count("threaded-encodes", t[2])
         chk.evaluations += t[2]
